@@ -25,6 +25,17 @@ fn methods_of(decl: &Declaration) -> &[Spanned<ast::MethodDecl>] {
     }
 }
 
+/// The expressions a declaration holds outside method bodies: a const's initializer and the default values of
+/// model / class fields (they are emitted into the generated crate like any other expression).
+fn initializers_of(decl: &Declaration) -> Vec<&Spanned<Expr>> {
+    match decl {
+        Declaration::Const(c) => vec![&c.value],
+        Declaration::Model(m) => m.fields.iter().filter_map(|f| f.node.default.as_ref()).collect(),
+        Declaration::Class(c) => c.fields.iter().filter_map(|f| f.node.default.as_ref()).collect(),
+        _ => vec![],
+    }
+}
+
 /// Detect whether serde derives are used anywhere in the program
 pub fn detect_serde_usage(program: &Program) -> bool {
     for decl in &program.declarations {
@@ -61,6 +72,12 @@ pub fn detect_serde_usage(program: &Program) -> bool {
 /// Detect whether the program uses the `json_stringify` builtin.
 fn program_uses_json_stringify(program: &Program) -> bool {
     for decl in &program.declarations {
+        if initializers_of(&decl.node)
+            .iter()
+            .any(|e| expr_uses_json_stringify(&e.node))
+        {
+            return true;
+        }
         match &decl.node {
             Declaration::Function(func) => {
                 if body_uses_json_stringify(&func.body) {
@@ -96,7 +113,9 @@ fn stmt_uses_json_stringify(stmt: &Statement) -> bool {
         }
         Statement::ChainedAssignment(assign) => expr_uses_json_stringify(&assign.value.node),
         Statement::TupleUnpack(unpack) => expr_uses_json_stringify(&unpack.value.node),
-        Statement::TupleAssign(assign) => expr_uses_json_stringify(&assign.value.node),
+        Statement::TupleAssign(assign) => {
+            assign.targets.iter().any(|t| expr_uses_json_stringify(&t.node)) || expr_uses_json_stringify(&assign.value.node)
+        }
         Statement::Return(Some(expr)) => expr_uses_json_stringify(&expr.node),
         Statement::If(if_stmt) => {
             expr_uses_json_stringify(&if_stmt.condition.node)
@@ -200,6 +219,9 @@ fn expr_uses_json_stringify(expr: &Expr) -> bool {
 /// Detect whether async runtime is required
 pub fn detect_async_usage(program: &Program) -> bool {
     for decl in &program.declarations {
+        if initializers_of(&decl.node).iter().any(|e| expr_uses_async(&e.node)) {
+            return true;
+        }
         match &decl.node {
             Declaration::Function(func) => {
                 if func.is_async || body_uses_async(&func.body) {
@@ -243,7 +265,9 @@ fn stmt_uses_async(stmt: &Statement) -> bool {
         }
         Statement::ChainedAssignment(assign) => expr_uses_async(&assign.value.node),
         Statement::TupleUnpack(unpack) => expr_uses_async(&unpack.value.node),
-        Statement::TupleAssign(assign) => expr_uses_async(&assign.value.node),
+        Statement::TupleAssign(assign) => {
+            assign.targets.iter().any(|t| expr_uses_async(&t.node)) || expr_uses_async(&assign.value.node)
+        }
         Statement::Return(Some(expr)) => expr_uses_async(&expr.node),
         Statement::If(if_stmt) => {
             expr_uses_async(&if_stmt.condition.node)
@@ -296,14 +320,25 @@ fn expr_uses_async(expr: &Expr) -> bool {
         Expr::MethodCall(receiver, _, args) => expr_uses_async(&receiver.node) || args.iter().any(call_arg_uses_async),
         Expr::Field(base, _) => expr_uses_async(&base.node),
         Expr::Index(base, index) => expr_uses_async(&base.node) || expr_uses_async(&index.node),
-        Expr::Slice(base, _) => expr_uses_async(&base.node),
+        Expr::Slice(base, slice) => {
+            expr_uses_async(&base.node)
+                || slice.start.as_ref().is_some_and(|e| expr_uses_async(&e.node))
+                || slice.end.as_ref().is_some_and(|e| expr_uses_async(&e.node))
+                || slice.step.as_ref().is_some_and(|e| expr_uses_async(&e.node))
+        }
+        Expr::Range { start, end, .. } => expr_uses_async(&start.node) || expr_uses_async(&end.node),
+        Expr::Yield(Some(e)) => expr_uses_async(&e.node),
         Expr::If(if_expr) => {
             expr_uses_async(&if_expr.condition.node)
                 || body_uses_async(&if_expr.then_body)
                 || if_expr.else_body.as_ref().is_some_and(|b| body_uses_async(b))
         }
         Expr::Match(expr, arms) => {
-            expr_uses_async(&expr.node) || arms.iter().any(|arm| match_body_uses_async(&arm.node.body))
+            expr_uses_async(&expr.node)
+                || arms.iter().any(|arm| {
+                    arm.node.guard.as_ref().is_some_and(|g| expr_uses_async(&g.node))
+                        || match_body_uses_async(&arm.node.body)
+                })
         }
         Expr::Closure(_, body) => expr_uses_async(&body.node),
         Expr::List(items) | Expr::Tuple(items) | Expr::Set(items) => {
@@ -382,6 +417,12 @@ pub fn detect_web_usage(program: &Program) -> bool {
 /// Detect list helper usage (remove, count, index)
 pub fn detect_list_helpers_usage(program: &Program) -> bool {
     for decl in &program.declarations {
+        if initializers_of(&decl.node)
+            .iter()
+            .any(|e| expr_uses_list_helpers(&e.node))
+        {
+            return true;
+        }
         match &decl.node {
             Declaration::Function(func) => {
                 if body_uses_list_helpers(&func.body) {
@@ -417,7 +458,9 @@ fn stmt_uses_list_helpers(stmt: &Statement) -> bool {
         }
         Statement::ChainedAssignment(assign) => expr_uses_list_helpers(&assign.value.node),
         Statement::TupleUnpack(unpack) => expr_uses_list_helpers(&unpack.value.node),
-        Statement::TupleAssign(assign) => expr_uses_list_helpers(&assign.value.node),
+        Statement::TupleAssign(assign) => {
+            assign.targets.iter().any(|t| expr_uses_list_helpers(&t.node)) || expr_uses_list_helpers(&assign.value.node)
+        }
         Statement::Return(Some(expr)) => expr_uses_list_helpers(&expr.node),
         Statement::If(if_stmt) => {
             expr_uses_list_helpers(&if_stmt.condition.node)
